@@ -474,12 +474,6 @@ func (w *work) hostileTar() {
 
 // Keys -----------------------------------------------------------------------------------------------------------------------
 
-func keyBytes(k hpke.PrivateKey) string {
-	b, err := k.Bytes()
-	must(err)
-	return string(b)
-}
-
 func (w *work) keys() {
 	e, p := w.e, w.p
 	kinds := []kind{unpackStaged, unpackEncDirect, loadArchive}
@@ -493,7 +487,9 @@ func (w *work) keys() {
 			e.run.Add("key_files_rejected_on_read", 1)
 			return
 		}
-		same := keyBytes(key) == keyBytes(e.priv)
+		// "the matching private key" = any private key of the recipient's key pair. An ML-KEM private key is the seed d||z;
+		// z only feeds implicit rejection, so seeds that differ in z alone have the same public key and decapsulate alike.
+		same := bytes.Equal(key.PublicKey().Bytes(), e.pub.Bytes())
 		for _, k := range kinds {
 			a := artefact{Codec: p.codec, Family: family, Detail: detail, Pos: pos, Val: val, kind: k}
 			if e.skip(a) {
@@ -503,7 +499,7 @@ func (w *work) keys() {
 			e.run.Add("distinct_nontrivial", 1)
 			if !same && o.err == nil {
 				a.Target = kindName[k]
-				e.report("archive-opens-with-non-matching-key:"+kindName[k], a, "the archive was opened with a private key whose bytes differ from the matching key")
+				e.report("archive-opens-with-non-matching-key:"+kindName[k], a, "the archive was opened with a private key that does not belong to the recipient public key")
 				continue
 			}
 			e.judge(p, a, o)
